@@ -1,19 +1,24 @@
 #!/bin/bash
-# every behaviour-preserving edit must leave EVERY property's check quiet, not only the one it was written for
+# every behaviour-preserving edit must leave every property's check quiet, not only the one it was
+# written for. By default each patch is run against the checks that examine a function the patch
+# touches (plus its own property); ALLPROPS=1 runs all twenty checks per patch (about ten hours).
 out=${1:-/var/tmp/harmless_all.log}; : > $out
+mkdir -p /var/tmp/propfuncs
+for p in $(seq -w 1 20); do /verif/bin/gpverify list -p C$p > /var/tmp/propfuncs/C$p.txt; done
 run() {
   p=$1; id=$(basename $p .patch)
   tmp=$(mktemp -d /var/tmp/gpvh.XXXXXX)
   mkdir -p $tmp/repo && git -C /repo archive HEAD | tar -x -C $tmp/repo
   if ! (cd $tmp/repo && patch -p1 -s < $p); then echo "$id PATCH-FAILED"; rm -rf $tmp; return; fi
+  if [ -n "$ALLPROPS" ]; then props="C01 C02 C03 C04 C05 C06 C07 C08 C09 C10 C11 C12 C13 C14 C15 C16 C17 C18 C19 C20"; else props=$(/verif/selftest/relevant_props.py $p ${id%%-*}); fi
   bad=""
-  for prop in C01 C02 C03 C04 C05 C06 C07 C08 C09 C10 C11 C12 C13 C14 C15 C16 C17 C18 C19 C20; do
+  for prop in $props; do
     o=$(GPV_REPO=$tmp/repo GPV_NO_REPLAY=1 /verif/bin/gpverify check -p $prop -scratch $tmp/out 2>&1); c=$?
     if [ $c -ne 0 ]; then bad="$bad $prop(exit$c:$(echo "$o" | grep -m1 'VIOLATION\|UNDECIDED' | sed 's/.*obligation=//; s/replay=[^ ]* //' | cut -c1-110))"; fi
   done
   rm -rf $tmp
-  if [ -z "$bad" ]; then echo "$id ALL-QUIET"; else echo "$id ALARMS:$bad"; fi
+  if [ -z "$bad" ]; then echo "$id QUIET under: $props"; else echo "$id ALARMS:$bad"; fi
 }
 export -f run
-ls ${PATCHES:-/verif/selftest/harmless/*.patch} | xargs -P 4 -I{} bash -c 'run {}' >> $out
+ls ${PATCHES:-/verif/selftest/harmless/*.patch} | xargs -P ${JOBS:-4} -I{} bash -c 'run {}' >> $out
 echo DONE >> $out
